@@ -58,3 +58,10 @@ reg("C10", MC, "bounded exhaustive enumeration of block populations and variance
     "preservation and byte-wise input immutability are compared with exact arithmetic.",
     "Unweighted block variance may be ddof=0 or ddof=1, consistently (pandas-version dependent; the statement does not fix it).",
     "DESIGN.md section 5, C10")
+reg("C11", MC, "bounded exhaustive enumeration of block-occupancy vectors x cross-validator parameters on the real split generators",
+    "Every occupancy vector (0..3 points per cell, thorough 0..4) of the layouts 1x2..1x5, 2x2, 2x3 (thorough more) is realised as points and "
+    "split by BlockKFold for every n_splits/shuffle/balance/seed/spec and by BlockShuffleSplit for every test_size/train_size/balancing/"
+    "n_splits/seed of a finite menu; every yielded split is checked for partition, whole blocks, fold count / non-emptiness / disjointness / "
+    "coverage, the balance bound or the equal-block fall-back, the prescribed number of test blocks, best-balanced candidate choice and "
+    "reproducibility.", "sklearn KFold/ShuffleSplit trusted; candidate shuffles observed via a recording subclass patched into "
+    "verde.model_selection (reported as not observed if a refactoring stops using that symbol).", "DESIGN.md section 5, C11")
